@@ -227,6 +227,7 @@ class Shaper:
     def __init__(self, rg, inp, keep_all_tokens=False, maybe_placeholders=True, positions=False):
         self.rg, self.inp = rg, inp
         self.keep_all, self.ph, self.positions = keep_all_tokens, maybe_placeholders, positions
+        self.fired = set()       # which shaping rules were applied (for the evidence)
 
     def tok(self, leaf):
         _, tid, anon, s, j = leaf
@@ -252,14 +253,22 @@ class Shaper:
     def contrib(self, d, keep):
         """list of children this derivation node contributes to its parent"""
         if d[0] == 't':
-            return [] if self.filtered(d, keep) else [self.tok(d)]
+            if self.filtered(d, keep):
+                self.fired.add('token-filtered')
+                return []
+            if d[2] and self.rg.terms[d[1]].pat[0] == 's' or (self.rg.terms[d[1]].name or '').startswith('_'):
+                self.fired.add('token-kept-by-bang-or-keep_all')
+            return [self.tok(d)]
         _, name, pidx, ch = d
         nt = self.rg.nts[name]
         prod = nt.prods[pidx]
         if nt.kind == 'helper':
             if prod.maybe is not None and not ch:
                 if self.ph:
-                    return [None] * count_kept(prod.maybe, keep or self.keep_all, self.rg)
+                    k = count_kept(prod.maybe, keep or self.keep_all, self.rg)
+                    if k:
+                        self.fired.add('none-placeholder')
+                    return [None] * k
                 return []
             out = []
             for c in ch:
@@ -270,9 +279,15 @@ class Shaper:
         for c in ch:
             kids.extend(self.contrib(c, k))
         if nt.display.startswith('_'):
+            self.fired.add('rule-inlined')
             return kids
         if '?' in nt.mods and len(kids) == 1 and not prod.alias:
+            self.fired.add('expand1')
             return kids
+        if prod.alias:
+            self.fired.add('alias')
+        if nt.display != nt.name:
+            self.fired.add('template-instance')
         return [['N', prod.alias or nt.display, kids]]
 
     def shape(self, d):
